@@ -213,8 +213,10 @@ def _gen_type(rng, names_abs, names_conc, depth, profile, siblings):
     """One field type. `siblings` = [(name, typeexpr)] of earlier fields (for dependent refinements)."""
     finite = profile == "finite"
     r = rng.random()
-    if depth > 1:
-        r = min(r, 0.64)  # inside containers: keep it simple
+    if depth == 2:
+        r *= 0.68  # inside containers: simple types, occasionally one more list level
+    elif depth > 2:
+        r *= 0.639
     refs = names_abs + names_conc
     if r < 0.30 and refs:
         return ["ref", rng.choice(names_abs if (names_abs and rng.random() < 0.8) else refs)]
